@@ -160,7 +160,7 @@ func TestC03Budget(t *testing.T) {
 // TestC09Spacing: two sync requests of the active replica set around reconcileFrequency, the first
 // at a generated fraction of a second (stored timestamps are truncated to seconds), work pending for both.
 func TestC09Spacing(t *testing.T) {
-	rec := evid.New("TestC09Spacing", "C09", "active replica set with pods to create and/or outdated pods to delete (mixed, only outdated, only missing; maxUnavailable 1-3; kubelet progress between the syncs or not); sync 1 at second fraction f in {0, .2, .5, .8, .95}, sync 2 after a gap of reconcileFrequency + d, d in {-1.8s ... +0.3s}; reconcileFrequency in {2s, 3s, 10s}; optionally one pod deletion or creation of the first sync is rejected (generic or typed error) while its status write succeeds; oracle (rate monitor): two syncs that create or delete pods are at least reconcileFrequency - 1s apart when the first status write succeeded, and every sync respects the slow-start bound; non-trivial = the second request arrives less than reconcileFrequency after the first; distinct by (frequency, fraction, gap, layout)")
+	rec := evid.New("TestC09Spacing", "C09", "active replica set with pods to create and/or outdated pods to delete (mixed, only outdated, only missing; maxUnavailable 1-3; kubelet progress between the syncs or not); sync 1 at second fraction f in {0, .2, .5, .8, .95}, sync 2 after a gap of reconcileFrequency + d, d in {-1.8s ... +0.3s}; reconcileFrequency in {2s, 3s, 10s}; optionally one pod deletion or creation of the first sync fails (refused with a generic or typed error, or stored and answered with ServerTimeout) while its status write succeeds; oracle (rate monitor): two syncs that create or delete pods are at least reconcileFrequency - 1s apart when the first status write succeeded, and every sync respects the slow-start bound; non-trivial = the second request arrives less than reconcileFrequency after the first; distinct by (frequency, fraction, gap, layout)")
 	t.Cleanup(func() {
 		if !t.Failed() {
 			rec.Done()
@@ -195,7 +195,7 @@ func TestC09Spacing(t *testing.T) {
 		var vs []mon.V
 		// in the first sync one pod write may fail (the status write still succeeds: the spacing obligation stands)
 		failWrite := rapid.SampledFrom([]string{"", "", "delete", "create"}).Draw(rt, "failingPodWrite")
-		failKind := rapid.SampledFrom([]sim.FaultKind{sim.FaultReject, sim.FaultRejectTyped}).Draw(rt, "errorClass")
+		failKind := rapid.SampledFrom([]sim.FaultKind{sim.FaultReject, sim.FaultRejectTyped, sim.FaultLostAnswerTyped}).Draw(rt, "errorClass")
 		hit := false
 		c.Faults = func(call *sim.Call) sim.FaultKind {
 			if !hit && failWrite != "" && call.Kind == "Pod" && call.Verb == failWrite {
